@@ -11,6 +11,8 @@ From Spec Require Import AngleSpec.
 From Gen Require Import M_base M_Angle.
 From Proofs.C03 Require Import C03_defs C03_reduce C03_construct C03_forms C03_dms C03_ops.
 From Proofs.C03 Require C03_grid.
+From PyLib Require B64 B64Verified.
+From Proofs.C03 Require C03_reduce_b64.
 Import ListNotations.
 Open Scope R_scope.
 
@@ -203,6 +205,22 @@ Theorem C03_grid_b64 :
   (forall x, In x C03_grid.ra_floats -> C03_grid.chk_ra x = true).
 Proof. exact C03_grid.grid_b64. Qed.
 
+(* binary64 instance, EVERY finite float (proof by w-C11 on lib/B64Verified.v, Flocq bridge):
+   reduce_deg returns a finite float whose real value RV r = B2R (Prim2B r) is EXACTLY red360 of the
+   value of x - no rounding - hence strictly inside (-360, 360) with the sign of x *)
+Theorem C03_reduce_deg_b64 : forall x : PrimFloat.float, B64Verified.fin x ->
+  exists r, Angle_reduce_deg B64.B0 (VFloat x) = VFloat r /\ B64Verified.fin r /\
+            B64Verified.RV r = red360 (B64Verified.RV x) /\
+            Rabs (B64Verified.RV r) < 360 /\
+            (0 <= B64Verified.RV x -> 0 <= B64Verified.RV r) /\
+            (B64Verified.RV x <= 0 -> B64Verified.RV r <= 0).
+Proof.
+  intros x Fx. destruct (C03_reduce_b64.reduce_deg_b64_exact x Fx) as (r & E & Fr & Hr).
+  destruct (C03_reduce_b64.reduce_deg_b64_range x Fx) as (r' & E' & _ & Hb & Hp & Hn).
+  assert (r' = r) by congruence. subst r'.
+  exists r. repeat split; assumption.
+Qed.
+
 Redirect "C03_reduce_deg_ideal.assumptions" Print Assumptions C03_reduce_deg_ideal.
 Redirect "C03_reduction_spec.assumptions" Print Assumptions C03_reduction_spec.
 Redirect "C03_construct_ideal.assumptions" Print Assumptions C03_construct_ideal.
@@ -212,3 +230,4 @@ Redirect "C03_division_by_zero_ideal.assumptions" Print Assumptions C03_division
 Redirect "C03_unary_compare_ideal.assumptions" Print Assumptions C03_unary_compare_ideal.
 Redirect "C03_views_ideal.assumptions" Print Assumptions C03_views_ideal.
 Redirect "C03_grid_b64.assumptions" Print Assumptions C03_grid_b64.
+Redirect "C03_reduce_deg_b64.assumptions" Print Assumptions C03_reduce_deg_b64.
